@@ -75,6 +75,12 @@ def run(ctx):
                 desc = "a sub-slice of the word"
             elif base.k == "call" and "Index" in base.a[0]:
                 good = True
+        elif k_e.k == "field" and strip_refs(k_e.a[0]).k == "call" and strip_refs(k_e.a[0]).a[0].endswith("::split_at"):
+            # `let (key, rest) = word.split_at(i)`: both halves are sub-slices of the word
+            base = peel_conv(strip_refs(k_e.a[0]).a[1][0])
+            if base.k == "arg" and _param_is_word_slice(prog, fk, base.a[0], acc):
+                good = True
+                desc = "a sub-slice of the word (split_at)"
         elif k_e.k == "local" or k_e.k == "phi":
             # `key = &middle[..n]` bound to a local
             txt = repr(b.expr_operand(t_arg(prog, fk, bb)))
